@@ -24,9 +24,30 @@ import (
 func zooSchema() *qgen.Schema {
 	s := &qgen.Schema{}
 	for _, e := range zoo.Entries {
-		s.Types = append(s.Types, qgen.TypeDesc{Name: e.Name, Kind: e.Kind, Tags: e.Tags, Rare: e.Bad})
+		s.Types = append(s.Types, qgen.TypeDesc{Name: e.Name, Kind: e.Kind, Tags: e.Tags, Rare: e.Bad,
+			Hot: !e.Bad && embedDepth(e.Type, 0) >= 3})
 	}
 	return s
+}
+
+// embedDepth is the number of struct levels below t reached through embedded fields.
+func embedDepth(t reflect.Type, guard int) int {
+	for t.Kind() == reflect.Pointer {
+		t = t.Elem()
+	}
+	if t.Kind() != reflect.Struct || guard > 8 {
+		return 0
+	}
+	d := 0
+	for i := 0; i < t.NumField(); i++ {
+		f := t.Field(i)
+		if f.Anonymous && f.Tag.Get("db") == "" {
+			if x := 1 + embedDepth(f.Type, guard+1); x > d {
+				d = x
+			}
+		}
+	}
+	return d
 }
 
 // l2Case is one (query, samples, args) case; values are real Go values.
